@@ -61,7 +61,7 @@ func scenC04(e *Env) func() {
 		var calls []c04Call
 		n := e.Range(1, 3)
 		for i := 0; i < n; i++ {
-			c := c04Call{ID: fmt.Sprintf("%d-%d", ci, i), Method: Pick(e, "GET", "GET", "POST"), API: Pick(e, "do", "timeout", "deadline"), TimeoutMs: Pick(e, 10, 200, 1000, 5000, 60000), GapMs: Pick(e, 0, 0, 1, 100, 3000), Act: genSrvAction(e)}
+			c := c04Call{ID: fmt.Sprintf("%d-%d", ci, i), Method: Pick(e, "GET", "GET", "POST", "HEAD"), API: Pick(e, "do", "timeout", "deadline"), TimeoutMs: Pick(e, 10, 200, 1000, 5000, 60000), GapMs: Pick(e, 0, 0, 1, 100, 3000), Act: genSrvAction(e)}
 			if p.Client != "pipeline" && e.Chance(45) {
 				c.Stream = true
 				c.ReadBytes = Pick(e, -1, 0, 1, 5, 50, 500)
@@ -175,6 +175,9 @@ func c04Call1(e *Env, cl interface {
 		return
 	}
 	want := ExpectedBody(c.ID, c.Act)
+	if c.Method == "HEAD" {
+		want = nil // a response to HEAD has no body, whatever its Content-Length says
+	}
 	if c.Stream && resp.BodyStream() != nil {
 		var got []byte
 		var rerr error
